@@ -4,6 +4,7 @@ import (
 	"encoding/json"
 	"errors"
 	"fmt"
+	"io"
 	"net/http"
 	"sort"
 	"strconv"
@@ -100,6 +101,9 @@ type Run struct {
 	Lines   []string // abstract trace
 	rawPos  int
 	reqKind map[int]string
+	// ActionLog, when set, receives every action (one JSON object per line) before it is executed, so that a
+	// history that kills the process can still be replayed
+	ActionLog io.Writer
 }
 
 // NewRun starts a gateway.
@@ -203,6 +207,10 @@ func (r *Run) client(label string) *Client {
 // Do executes one action and appends it to the history.
 func (r *Run) Do(a Action) (ok bool) {
 	ok = true
+	if r.ActionLog != nil {
+		b, _ := json.Marshal(a)
+		r.ActionLog.Write(append(b, '\n'))
+	}
 	switch a.A {
 	case "connect":
 		var h http.Header
@@ -318,10 +326,22 @@ func (r *Run) Snapshot() []string {
 	}
 	for _, e := range r.W.Serv.VerifCache().VerifEntries() {
 		nsubs := 0
+		var who []string
 		for _, rs := range e.Resources {
 			nsubs += len(rs.Subs)
+			for _, sb := range rs.Subs {
+				cid := sb
+				if i := strings.IndexByte(sb, ' '); i > 0 {
+					cid = sb[:i]
+				}
+				who = append(who, r.W.label(cid))
+			}
 		}
-		out = append(out, fmt.Sprintf("SNAPENT\t%s\t%d\t%t\t%t\t%d\t%d", AbsRID(e.Name), e.Count, e.HasMQSub, e.InEvictQueue, nsubs, len(e.Resources)))
+		ws := strings.Join(who, ",")
+		if ws == "" {
+			ws = "-"
+		}
+		out = append(out, fmt.Sprintf("SNAPENT\t%s\t%d\t%t\t%t\t%d\t%d\t%s", AbsRID(e.Name), e.Count, e.HasMQSub, e.InEvictQueue, nsubs, len(e.Resources), ws))
 	}
 	return out
 }
